@@ -202,6 +202,77 @@ func envelopeUnit(alg int) harness.Unit {
 	}}
 }
 
+// denseUnit: every content length in a dense range (DER length-encoding boundaries such as 127/128,
+// 255/256 and 65280..65535 inside the containers), one recipient, both content algorithms.
+func denseUnit(alg int, lo, hi int, extra []int) harness.Unit {
+	algName := map[int]string{gx509.EncryptionAlgorithmDESCBC: "DES-CBC", gx509.EncryptionAlgorithmAES128GCM: "AES-128-GCM"}[alg]
+	return harness.Unit{Name: fmt.Sprintf("enveloped-dense/%s/%d..%d", algName, lo, hi), Run: func(c *harness.Ctx) {
+		gx509.ContentEncryptionAlgorithm = alg
+		ids := identities()
+		sm, rs := ids[0], ids[4]
+		var lens []int
+		for l := lo; l <= hi; l++ {
+			lens = append(lens, l)
+		}
+		lens = append(lens, extra...)
+		for _, L := range lens {
+			content := pu.Msg(L+1, L)
+			c.Add("evaluations", 2)
+			c.DistinctS("nontrivial", fmt.Sprintf("dense/%s/%d", algName, L))
+			c.Guard("envelope-panic:dense-sm2", fmt.Sprintf("SM2 envelope %s |content|=%d", algName, L), nil, func() {
+				env, err := gx509.PKCS7EncryptSM2(content, []*gx509.Certificate{sm.cert}, L%2)
+				if err != nil {
+					c.Violate(fmt.Sprintf("envelope-encrypt-error:sm2:%s:L=%d", algName, L), err.Error(), nil, nil)
+					return
+				}
+				p7, err := gx509.ParsePKCS7(env)
+				if err != nil {
+					c.Violate(fmt.Sprintf("envelope-parse:sm2:%s:dense", algName), fmt.Sprintf("own %s envelope of a %d-byte content does not parse: %v", algName, L, err), nil, nil)
+					return
+				}
+				pt, err := p7.DecryptSM2(sm.cert, sm.sm2, L%2)
+				if err != nil || !bytes.Equal(pt, content) {
+					c.Violate(fmt.Sprintf("envelope-recipient-fails:sm2:%s:dense", algName), fmt.Sprintf("%s SM2 envelope of a %d-byte content: recipient recovers %s (err %v)", algName, L, pu.Hex(pt), err), nil, nil)
+				}
+			})
+			c.Guard("envelope-panic:dense-rsa", fmt.Sprintf("RSA envelope %s |content|=%d", algName, L), nil, func() {
+				env, err := gx509.PKCS7Encrypt(content, []*gx509.Certificate{rs.cert})
+				if err != nil {
+					c.Violate(fmt.Sprintf("envelope-encrypt-error:rsa:%s:L=%d", algName, L), err.Error(), nil, nil)
+					return
+				}
+				p7, err := gx509.ParsePKCS7(env)
+				if err != nil {
+					c.Violate(fmt.Sprintf("envelope-parse:rsa:%s:dense", algName), fmt.Sprintf("own %s envelope of a %d-byte content does not parse: %v", algName, L, err), nil, nil)
+					return
+				}
+				pt, err := p7.Decrypt(rs.cert, rs.rsa)
+				if err != nil || !bytes.Equal(pt, content) {
+					c.Violate(fmt.Sprintf("envelope-recipient-fails:rsa:%s:dense", algName), fmt.Sprintf("%s RSA envelope of a %d-byte content: recipient recovers %s (err %v)", algName, L, pu.Hex(pt), err), nil, nil)
+				}
+			})
+		}
+		// attached signed data of every length too (content inside the container)
+		if alg == gx509.EncryptionAlgorithmDESCBC {
+			for _, L := range lens {
+				content := pu.Msg(L+2, L)
+				c.Add("evaluations", 1)
+				sp := sdSpec{content: content, attrs: L%2 == 0, signer: sm, certInBag: sm.cert}
+				c.Guard("signed-panic:dense", fmt.Sprintf("signed data |content|=%d", L), nil, func() {
+					p7, err := gx509.ParsePKCS7(buildSigned(sp))
+					if err == nil {
+						err = p7.Verify()
+					}
+					if err != nil {
+						c.Violate("signed-valid-rejected:dense", fmt.Sprintf("valid attached SM2 signed data with %d bytes of content rejected: %v", L, err), nil, nil)
+					}
+				})
+			}
+		}
+		c.Sample(fmt.Sprintf("%s: every content length %d..%d plus %v, SM2 and RSA recipient, attached signed data", algName, lo, hi, extra))
+	}}
+}
+
 // ---- signed data built by the harness in the GM/T 0010 layout ------------------------------
 
 type attribute struct {
@@ -582,7 +653,7 @@ func blockTypes(bs []*pem.Block) []string {
 var Prop = &harness.Prop{
 	ID:    "C17",
 	Level: "exploration",
-	Rule: "enveloped data: full product content lengths {0,1,7,8,9,15,16,17,1000,65536} x content algorithm {DES-CBC, AES-128-GCM} x {SM2 C1C3C2, SM2 C1C2C3, RSA} x 1..3 recipients: each recipient recovers the content; another key, a non-recipient certificate, the other ordering and a key of the wrong type must give an error (not a panic). signed data: SM2 objects built by the harness in the GM/T 0010 layout over lengths x attributes x attached/detached x both OID pairs verify, and each of 8 tamperings (content, signature, signer certificate, each signed attribute) is rejected; the package's own RSA creation path must verify. PKCS#12: 2 SM2 identities x 4 passwords (empty, ASCII, spaces, non-ASCII): round trip through DecodeAll/ToPEM, every other password refused; fault enumeration over one bundle per password: every byte substitution and every truncation gives an error or the same content. Distinct/non-trivial = distinct case labels / mutated bundles.",
+	Rule: "enveloped data: every content length 0..300 and around 65280..65536 with one SM2 and one RSA recipient for both content algorithms (DER length-encoding boundaries inside the container), attached signed data of the same lengths; full product content lengths {0,1,7,8,9,15,16,17,1000,65536} x content algorithm {DES-CBC, AES-128-GCM} x {SM2 C1C3C2, SM2 C1C2C3, RSA} x 1..3 recipients: each recipient recovers the content; another key, a non-recipient certificate, the other ordering and a key of the wrong type must give an error (not a panic). signed data: SM2 objects built by the harness in the GM/T 0010 layout over lengths x attributes x attached/detached x both OID pairs verify, and each of 8 tamperings (content, signature, signer certificate, each signed attribute) is rejected; the package's own RSA creation path must verify. PKCS#12: 2 SM2 identities x 4 passwords (empty, ASCII, spaces, non-ASCII): round trip through DecodeAll/ToPEM, every other password refused; fault enumeration over one bundle per password: every byte substitution and every truncation gives an error or the same content. Distinct/non-trivial = distinct case labels / mutated bundles.",
 	Assumptions: []string{"the PKCS#7 content-encryption selector is a process-wide setting changed only between units (single-threaded)", "RSA recipient certificates come from Go's crypto/x509"},
 	Bounds: func(tier string) string {
 		if tier == "thorough" {
@@ -592,6 +663,20 @@ var Prop = &harness.Prop{
 	},
 	Units: func(tier string) []harness.Unit {
 		u := []harness.Unit{envelopeUnit(gx509.EncryptionAlgorithmDESCBC), envelopeUnit(gx509.EncryptionAlgorithmAES128GCM), signedUnit()}
+		big := []int{65200, 65279, 65280, 65281, 65400, 65527, 65535, 65536, 65537}
+		for _, alg := range []int{gx509.EncryptionAlgorithmDESCBC, gx509.EncryptionAlgorithmAES128GCM} {
+			for lo := 0; lo <= 300; lo += 76 {
+				hi := lo + 75
+				if hi > 300 {
+					hi = 300
+				}
+				ex := []int(nil)
+				if lo == 0 {
+					ex = big
+				}
+				u = append(u, denseUnit(alg, lo, hi, ex))
+			}
+		}
 		for i := range p12Passwords {
 			u = append(u, p12Unit(i))
 		}
